@@ -1,9 +1,11 @@
 import Heathcliff.Proofs.C03K
+import Heathcliff.Proofs.C03S
+import Heathcliff.Proofs.GenEvalSq
 import Heathcliff.Proofs.C02K
 import Heathcliff.Proofs.C07L
 import Heathcliff.Proofs.GenValid
 import Heathcliff.Proofs.GenEvalCt2
-import Heathcliff.Proofs.C03S
+import Heathcliff.Proofs.C03T
 /-
   C03 — the algebra of CKKS evaluation is scheme independent: the theorems of C02 (`ct_mul_phase`, `translate_phase`,
   `negate_phase`, `mul_plain_phase`, `add_plain_phase`) hold in any commutative ring and are restated here because the CKKS
@@ -157,6 +159,37 @@ theorem ckks_add_refuses_repr : type_of% @HC.ckks_add_refuses_repr := @HC.ckks_a
 /-- multiply refuses coefficient-form operands -/
 theorem ckks_multiply_refuses_coeff : type_of% @HC.ckks_multiply_refuses_coeff := @HC.ckks_multiply_refuses_coeff
 
+/-- K1 SQUARE: `ckksSquare` (the model of `ckks_square`: size-2 fast path `c0², c0·c1 + c0·c1, c1²`, `ckks_multiply(x, x.clone())` otherwise;
+    run by the driver for `ct_op square`) IS the product of the ciphertext with itself, for every canonical ciphertext -/
+theorem ckksSquare_eq : type_of% @HC.ckksSquare_eq := @HC.ckksSquare_eq
+
+/-- K1 SQUARE, integer level (any size n in 2..8): the exact phase of the square is the negacyclic square of the exact phase modulo Q;
+    the result is a canonical ciphertext of 2n − 1 polynomials; no noise is added -/
+theorem ckks_square_phase : type_of% @HC.ckks_square_phase := @HC.ckks_square_phase
+
+/-- square refuses a coefficient-form operand, and more than 8 polynomials (result size > 16) -/
+theorem ckks_square_refuses_coeff : type_of% @HC.ckks_square_refuses_coeff := @HC.ckks_square_refuses_coeff
+theorem ckks_square_refuses_size : type_of% @HC.ckksSquare_refuse_size := @HC.ckksSquare_refuse_size
+
+/-- translator tie (task S): the DATA of `Evaluator::ckks_square`, generated over the flat buffer (`GenC.ct_ckks_square`), fast path (size 2,
+    NTT form) = the flattened `ckksSquare` of the model - the in-place order `c2 = c1·c1, c1 = c0·c1, c1 += c1, c0 = c0·c0` -, THEN the
+    bookkeeping of a ciphertext product (`ckksProductBookkeeping`) -/
+theorem gen_ct_ckks_square_eq : type_of% @HC.gs_ckks_square_eq := @HC.gs_ckks_square_eq
+
+/-- dispatch: coefficient form refused; every size but 2 goes to `ckks_multiply(x, &x.clone())` (route 1) - as the model by definition -/
+theorem gen_ct_ckks_square_dispatch : type_of% @HC.gs_ckks_square_dispatch := @HC.gs_ckks_square_dispatch
+theorem ckksSquare_fallback : type_of% @HC.ckksSquare_fallback := @HC.ckksSquare_fallback
+
+/-- translator tie (task S): the DATA LOOPS of `Evaluator::ckks_multiply` (`GenC.ct_ckks_multiply` over the flat buffers: resize, nested loops over the
+    visited pairs, copy over the whole buffer, scale bookkeeping) = the flattened `ctMultiplyDyadic` of the model, THEN `ckksProductBookkeeping` — operands
+    of ANY sizes s1, s2 ≥ 1; the `resize` refusal and arithmetic traps included -/
+theorem gen_ct_ckks_multiply_eq : type_of% @HC.gs_ckks_multiply_eq := @HC.gs_ckks_multiply_eq
+
+/-- GENERATED = MODEL (`ckks_square`, EVERY size ≥ 1, both representations): the generated dispatch / fast path with the fallback route resolved by the
+    generated `ckks_multiply` on the ciphertext and its clone (`gs_ckks_square_run`) = the flattened `ckksSquare`, then the product bookkeeping.
+    With `ckksSquare_eq` / `ckks_square_phase`: what the code's `ckks_square` returns has the negacyclic square of the exact phase. -/
+theorem gen_ct_ckks_square_all : type_of% @HC.gs_ckks_square_run_eq := @HC.gs_ckks_square_run_eq
+
 /-- multiply_plain refuses a coefficient-form ciphertext -/
 theorem ckks_multiply_plain_refuses_coeff : type_of% @HC.ckks_multiply_plain_refuses_coeff := @HC.ckks_multiply_plain_refuses_coeff
 
@@ -275,12 +308,12 @@ example : HC.GenC.ct_multiply_plain_normal_plan 5 false true 8192 3 .ckks true f
 /-! ### scale agreement ("operands whose scales disagree are refused"): `util::are_close_f64`, exact-arithmetic model `areCloseDy` -/
 
 /-- identical scales are accepted -/
-theorem scales_close_self : type_of% @HC.c03s_areClose_self := @HC.c03s_areClose_self
+theorem scales_close_self : type_of% @HC.c03t_areClose_self := @HC.c03t_areClose_self
 /-- the verdict is symmetric in the operands -/
-theorem scales_close_symm : type_of% @HC.c03s_areClose_symm := @HC.c03s_areClose_symm
+theorem scales_close_symm : type_of% @HC.c03t_areClose_symm := @HC.c03t_areClose_symm
 /-- scales whose relative difference is at least 2^-45 are refused (e.g. a rescaled product s²/q against the nominal s unless q is within
     2^-45 of s); the statement is in the scaled integers of the definition -/
-theorem scales_far_refused : type_of% @HC.c03s_areClose_far := @HC.c03s_areClose_far
+theorem scales_far_refused : type_of% @HC.c03t_areClose_far := @HC.c03t_areClose_far
 /-- non-vacuity: 2^40 against 2^40·(1 + 2^-30) (mantissas 2^52 and 2^52 + 2^22 at exponent -12) is refused; against itself accepted;
     one unit in the last place apart is still accepted (the tolerance of the code is one machine epsilon) -/
 example : HC.areCloseDy 4503599627370496 (-12) 4503599631564800 (-12) = false := by decide
